@@ -203,6 +203,7 @@ def explore(fn: Callable, params: Dict[str, Any], argspec: List[Tuple[str, Any]]
   violations: Dict[str, List[Dict[str, Any]]] = {}
   samples: List[Any] = []
   unknown_reasons: Dict[str, int] = {}
+  ignored_reasons: Dict[str, int] = {}
   exhausted = False
   t0 = process_time()
   w0 = time.time()
@@ -241,6 +242,7 @@ def explore(fn: Callable, params: Dict[str, Any], argspec: List[Tuple[str, Any]]
               raise CrossHairInternal(f'harness returned {ret!r}')
           except Assume:
             status = 'ignored'
+            ignored_reasons['Assume'] = ignored_reasons.get('Assume', 0) + 1
           except (UnexploredPath, IgnoreAttempt, CrossHairInternal):
             raise
           except Exception as e:  # harness let an exception escape: that is a violation
@@ -264,8 +266,10 @@ def explore(fn: Callable, params: Dict[str, Any], argspec: List[Tuple[str, Any]]
         status = 'unknown'
         k = type(e).__name__
         unknown_reasons[k] = unknown_reasons.get(k, 0) + 1
-      except IgnoreAttempt:
+      except IgnoreAttempt as e:
         status = 'ignored'
+        k = 'IgnoreAttempt:' + str(e)[:60]
+        ignored_reasons[k] = ignored_reasons.get(k, 0) + 1
       decisions += len(space.choices_made)
       stats[status] += 1
       if status == 'unknown':
@@ -284,7 +288,7 @@ def explore(fn: Callable, params: Dict[str, Any], argspec: List[Tuple[str, Any]]
   closed = bool(exhausted and stats['unknown'] == 0)
   return dict(
       closed=closed, exhausted=bool(exhausted), violations=violations, samples=samples,
-      decisions=decisions, reach=dict(REACH), unknown_reasons=unknown_reasons,
+      decisions=decisions, reach=dict(REACH), unknown_reasons=unknown_reasons, ignored_reasons=ignored_reasons,
       solver_queries=SOLVER['queries'], solver_s=round(SOLVER['seconds'], 3),
       cpu_s=round(process_time() - t0, 2), wall_s=round(time.time() - w0, 2), **stats)
 
@@ -308,3 +312,13 @@ def run_concrete(fn: Callable, params: Dict[str, Any], args: List[Any]):
   if isinstance(ret, Violation):
     return ret.sig, str(ret.detail)[:600]
   return 'ok', ''
+
+
+import contextlib
+
+
+def untraced():
+  """Context manager: run a block without symbolic tracing (for work that involves no symbolic value)."""
+  if is_tracing():
+    return NoTracing()
+  return contextlib.nullcontext()
